@@ -4,6 +4,33 @@ import json, os, subprocess
 V = os.path.dirname(os.path.dirname(os.path.abspath(__file__)))
 
 CHECKS = {
+    "C01": dict(
+        text="Coq theorems, for every state, event and manager answer: whatever the connection task writes to the piece store hashes "
+             "to its file name (C01_writes_verified); a piece is reported done only right after such a write "
+             "(C01_done_after_write); assembled data failing the hash ends the task with nothing written or reported "
+             "(C01_mismatch_discards); in the manager a piece becomes owned only through PieceDone from the peer it was assigned "
+             "to and stays owned (C01_only_done_makes_have, C01_owned_stays); serving and advertising read that state (C09, C11). "
+             "Tie: the components by their own correspondences (C08-C12), plus end-to-end runs of the real Session, real "
+             "PeerHandler tasks and real piece files against misbehaving scripted peers (corrupt, wrong offset, duplicates, garbage, "
+             "disconnects): every advert a remote receives is checked against the store at that instant, every file re-hashed.",
+        note="Partial: that the piece the manager marks is the piece the task verified (task's piece_rx index = manager's piece_index for "
+             "that peer under every interleaving) is not proved in Coq; it is exercised end to end. SHA-1 uninterpreted. Torn file on crash "
+             "during fs::write not modelled. No axioms.",
+        technique="Coq proof (exhaustive case analysis of task and manager step functions) + end-to-end exploration with store oracle",
+        design="2/C01"),
+    "C02": dict(
+        text="Liveness over async schedules. Machine-checked ingredients: the number of missing pieces never increases "
+             "(C02_missing_nonincreasing); the chooser never returns nothing while the peer offers a wanted piece (C02_pick_exists); "
+             "an assignment immediately requests the first blocks of the tiling (C02_assignment_requests); the tracker phase cannot "
+             "deadlock the manager for any number of failures and any interleaving (C02_tracker_no_deadlock); extraction of a complete "
+             "store equals the described files for every geometry (C02_extraction_identical); no panic in the modelled components "
+             "(C06_total, C09_reply). Tie: end-to-end runs of the composed real system under the paused clock (1-4 scripted peers, "
+             "random segmentation/delays, late unchokes, disconnecting / corrupting extras, 16 KiB-scale geometries): every run must "
+             "complete, extract byte-identical files, start the extractor and not panic.",
+        note="Partial: termination under weak fairness follows from the variant + enabledness arguments only on paper; the fairness of "
+             "tokio's scheduler, TCP, real timers and the terminal UI task are not modelled; the end-to-end runs are exploration, not proof. No axioms.",
+        technique="Coq proof of the safety/variant ingredients + end-to-end exploration of the composed system",
+        design="2/C02"),
     "C03": dict(
         text="Coq theorems over executable mirrors of Metainfo::piece_length / file_piece_ranges and Extractor::extract_files "
              "(piece store as a partial function from hashes, File::open / read_exact failures and index panics as explicit "
